@@ -65,16 +65,18 @@ impl Projector {
             }
             Node::BulletList() => {
                 if let Some(child) = iter.child() {
-                    blocks.push(GraphBlock::BulletList(
-                        self.with(0).project_list_item(child),
-                    ));
+                    let items = self.with(0).project_list_item(child);
+                    if !items.is_empty() {
+                        blocks.push(GraphBlock::BulletList(items));
+                    }
                 }
             }
             Node::OrderedList() => {
                 if let Some(child) = iter.child() {
-                    blocks.push(GraphBlock::OrderedList(
-                        self.with(0).project_list_item(child),
-                    ));
+                    let items = self.with(0).project_list_item(child);
+                    if !items.is_empty() {
+                        blocks.push(GraphBlock::OrderedList(items));
+                    }
                 }
             }
             Node::Leaf(_) => {
@@ -149,6 +151,12 @@ impl Projector {
                     .iter()
                     .for_each(|item| items.last_mut().unwrap().push(item.clone()))
             });
+
+        // an item without text whose blocks have nothing to write (it held only an empty
+        // quote) is no item: written as a bare marker it would be read back as nothing
+        if iter.inlines().is_empty() && items.last().map_or(false, |blocks| blocks.len() == 1) {
+            items.pop();
+        }
 
         iter.next()
             .map(|next| self.with(self.header_level).project_list_item(next))
